@@ -1,6 +1,7 @@
 """ResponseDefs.sc"""
 
 from abc import ABC, abstractmethod
+import functools
 import logging
 
 from ..synth import server as srv
@@ -367,7 +368,9 @@ class OscMessageDispatcher(AbstractWrappingDispatcher):
         elif recv_port is not None:
             return OscFuncRecvPortMessageMatcher(recv_port, func)
         else:
-            return func
+            # One distinct object per responder: responders sharing the same
+            # function are removed / replaced by identity in the lists.
+            return functools.partial(fn.value, func)
 
     def get_keys_for_func_proxy(self, func_proxy):
         return [func_proxy.path]
